@@ -20,7 +20,7 @@ def denseJ (a : AlnD) : J := J.obj (a.map fun (n, s) => (n, J.str (String.ofList
 
 inductive Op where
   | slice (a b : Option Int) | int (i : Int) | rc | takeSeqs (names : List String) (neg : Bool)
-  | takePositions (cols : List Int) | toRna | toDna | addSelf | addCopy | keep (locs : List (Int × Int))
+  | takePositions (cols : List Int) (neg : Bool) | toRna | toDna | addSelf | addCopy | keep (locs : List (Int × Int))
   | other
 
 def parseOp (j : J) : Except String Op := do
@@ -29,7 +29,7 @@ def parseOp (j : J) : Except String Op := do
   | [J.str "int", i] => pure (.int (← i.toInt))
   | [J.str "rc"] => pure .rc
   | [J.str "take_seqs", ns, neg] => pure (.takeSeqs (← ns.toListOf J.toStr) (← neg.toBool))
-  | [J.str "take_positions", cols, J.bool false] => pure (.takePositions (← cols.toListOf J.toInt))
+  | [J.str "take_positions", cols, neg] => pure (.takePositions (← cols.toListOf J.toInt) (← neg.toBool))
   | [J.str "to_rna"] => pure .toRna
   | [J.str "to_dna"] => pure .toDna
   | [J.str "add", J.str "self"] => pure .addSelf
@@ -42,10 +42,10 @@ def stepA (dna : Bool) (a : AlnA) : Op → Option (Except Err (AlnA × Bool))
   | .int i => some ((mapRows (fun r => rowInt r i) a).map (·, dna))
   | .rc => some ((mapRows (rowRc dna) a).map (·, dna))
   | .takeSeqs ns neg => some (.ok (takeSeqs a ns neg, dna))
-  | .takePositions cols => some ((mapRows (fun r => rowTakePositions r cols) a).map (·, dna))
+  | .takePositions cols neg => some ((mapRows (fun r => if neg then rowTakePositionsNeg r cols else rowTakePositions r cols) a).map (·, dna))
   | .toRna => some (.ok (a.map fun (n, r) => (n, { r with data := r.data.map toRna }), false))
   | .toDna => some (.ok (a.map fun (n, r) => (n, { r with data := r.data.map toDna }), true))
-  | .addSelf => some ((mapRows rowAddSame a).map (·, dna))
+  | .addSelf => some (.ok (a.map fun (n, r) => (n, rowAddOther r r), dna))
   | .addCopy => some (.ok (a.map fun (n, r) => (n, rowAddOther r (rowOfString (gapped r))), dna))
   | .keep locs => some ((mapRows (fun r => rowKeep r locs) a).map (·, dna))
   | .other => none
@@ -55,7 +55,8 @@ def stepD (dna : Bool) (a : AlnD) : Op → Option (Except Err (AlnD × Bool))
   | .int i => some ((mapDense (fun s => denseTake s [i]) a).map (·, dna))
   | .rc => some (.ok (a.map fun (n, s) => (n, s.reverse.map (comp dna)), dna))
   | .takeSeqs ns neg => some (.ok (takeSeqs a ns neg, dna))
-  | .takePositions cols => some ((mapDense (fun s => denseTake s cols) a).map (·, dna))
+  | .takePositions cols neg => some ((mapDense (fun s =>
+      if neg then .ok ((s.zipIdx.filter fun p => !cols.contains (p.2 : Int)).map (·.1)) else denseTake s cols) a).map (·, dna))
   | .toRna => some (.ok (a.map fun (n, s) => (n, s.map toRna), false))
   | .toDna => some (.ok (a.map fun (n, s) => (n, s.map toDna), true))
   | .addSelf => some (.ok (a.map fun (n, s) => (n, s ++ s), dna))
